@@ -46,7 +46,7 @@ META = {
     ],
     "outside": ["OS-level pipe behaviour", "more than the stated ids/pool/decisions", "KeyboardInterrupt handling"],
     "bounds": {"quick": "n in {2,3} ids, pool 2, max_tasks in {1,2,25}, tasks: all succeed / id 0 raises / last raises / id 0 returns a container with an unpicklable element, K=6 decisions + tail policy; big-ids: 40 KB ids, K=3",
-               "thorough": "n in {2,3,4}, pool in {2,3}, max_tasks in {1,2,25}, K=7 (pool 2) / 6 (pool 3) decisions + tail policy"},
+               "thorough": "n in {2,3,4}, pool in {2,3}, max_tasks in {1,2,25}, K=7 (pool 2) / 5 (pool 3) decisions + tail policy"},
 }
 
 logging.disable(logging.CRITICAL)
@@ -544,8 +544,8 @@ def plan(tier):
            dict(name="twin", func="h_twin", shards=1, timeout=120, expect="refuted")]
     for pool in ([2] if q else [2, 3]):
         obs.append(dict(name="sched.pool%d" % pool, func="h_sched", shards=16 if q else 48, timeout=280 if q else 3000,
-                        env={"VT_POOL": pool, "VT_KDEC": 6 if q else (7 if pool == 2 else 6)},
-                        bound="pool=%d, K=%d decisions" % (pool, 6 if q else (7 if pool == 2 else 6))))
+                        env={"VT_POOL": pool, "VT_KDEC": 6 if q else (7 if pool == 2 else 5)},
+                        bound="pool=%d, K=%d decisions" % (pool, 6 if q else (7 if pool == 2 else 5))))
     return obs
 
 
